@@ -1,6 +1,7 @@
 package sim
 
 import (
+	"database/sql"
 	"encoding/json"
 	"errors"
 	"fmt"
@@ -150,7 +151,7 @@ func say(format string, a ...any) {
 // inlineStore opens the store in a directory on an inline bus.
 var inlineRunDone chan struct{}
 
-func inlineStore(dir string) (*store.Store, *nats.Conn, *nats.World, error) {
+func inlineStore(dir string, rootID string) (*store.Store, *nats.Conn, *nats.World, error) {
 	w := nats.NewWorld()
 	w.Inline = true
 	w.AddServer("c", "")
@@ -158,7 +159,7 @@ func inlineStore(dir string) (*store.Store, *nats.Conn, *nats.World, error) {
 	if err != nil {
 		return nil, nil, nil, err
 	}
-	st, err := store.NewStore(store.Params{File: dir + "/store.sqlite", Server: "nats://c:4222", Nc: snc, ID: crashRoot})
+	st, err := store.NewStore(store.Params{File: dir + "/store.sqlite", Server: "nats://c:4222", Nc: snc, ID: rootID})
 	if err != nil {
 		return nil, nil, w, err
 	}
@@ -188,10 +189,28 @@ func TestCrashChild(t *testing.T) {
 	log.SetOutput(io.Discard)
 	uuid.SetRand(&seedReader{state: mix(seed, 4242)}) // same ids, same page layout, same system calls in every run of a history
 	ops := crashWorkload(seed, nOps)
-	st, hc, w, err := inlineStore(dir)
+	rootParam := crashRoot
+	if os.Getenv("VERIF_CRASH_ROOT") == "default" {
+		rootParam = "" // the default configuration: the instance generates its own root id
+	}
+	st, hc, w, err := inlineStore(dir, rootParam)
 	if err != nil {
 		say("CHILD-ERROR open: %v", err)
 		os.Exit(5)
+	}
+	rn, err := client.GetRootNode(hc)
+	if err != nil {
+		say("CHILD-ERROR root: %v", err)
+		os.Exit(5)
+	}
+	say("ROOT %s", rn.ID)
+	for i := range ops {
+		if ops[i].Node == crashRoot {
+			ops[i].Node = rn.ID
+		}
+		if ops[i].Parent == crashRoot {
+			ops[i].Parent = rn.ID
+		}
 	}
 	tok, err := st.GetAuthorizer().NewToken("probe")
 	if err != nil {
@@ -307,15 +326,43 @@ func TestCrashVerify(t *testing.T) {
 	}
 	defer out()
 
-	st, hc, _, err := inlineStore(dir)
+	rootParam := crashRoot
+	if os.Getenv("VERIF_CRASH_ROOT") == "default" {
+		rootParam = ""
+	}
+	rootSeen := os.Getenv("VERIF_CRASH_ROOTSEEN") // what the crashed process reported as its root (empty: it died before)
+	if rootParam != "" && rootSeen == "" {
+		rootSeen = crashRoot
+	}
+	st, hc, _, err := inlineStore(dir, rootParam)
 	if err != nil {
 		fail("reopen-failed", "the store does not open after the crash: %v", err)
 		return
 	}
 	roots, err := client.GetNodes(hc, "root", "all", "", true)
-	if err != nil || len(roots) != 1 || roots[0].ID != crashRoot {
-		fail("root", "after the crash the instance root is %v (err %v), it was created as %s", roots, err, crashRoot)
+	if err != nil || len(roots) != 1 || (rootSeen != "" && roots[0].ID != rootSeen) {
+		fail("root", "after the crash the instance root is %v (err %v), before the crash it was %q", roots, err, rootSeen)
 		return
+	}
+	theRoot := roots[0].ID
+	// exactly one placement below the root sentinel, whatever the meta row says
+	if db, err := sql.Open("sqlite", dir+"/store.sqlite"); err == nil {
+		var n int
+		if err := db.QueryRow("SELECT COUNT(*) FROM edges WHERE up='root'").Scan(&n); err == nil && n != 1 {
+			fail("root", "after the crash the store holds %d root placements (edges below the root sentinel), the instance has one root", n)
+		}
+		db.Close()
+		if !v.OK {
+			return
+		}
+	}
+	for i := range ops {
+		if ops[i].Node == crashRoot {
+			ops[i].Node = theRoot
+		}
+		if ops[i].Parent == crashRoot {
+			ops[i].Parent = theRoot
+		}
 	}
 	if token != "" {
 		if key, ok := st.GetAuthorizer().(api.Key); ok {
@@ -353,9 +400,9 @@ func TestCrashVerify(t *testing.T) {
 		v.InFlt = ops[inflight].String()
 	}
 	build := func(withInflight bool) *RefStore {
-		r := NewRefStore(crashRoot)
-		r.Edges[[2]string{"root", crashRoot}] = &RefEdge{Up: "root", Down: crashRoot, Type: "device", Pts: map[PKey]data.Point{}}
-		r.Order = append(r.Order, [2]string{"root", crashRoot})
+		r := NewRefStore(theRoot)
+		r.Edges[[2]string{"root", theRoot}] = &RefEdge{Up: "root", Down: theRoot, Type: "device", Pts: map[PKey]data.Point{}}
+		r.Order = append(r.Order, [2]string{"root", theRoot})
 		for i, op := range ops {
 			if !(acked[i] || (withInflight && i == inflight)) {
 				continue
@@ -400,7 +447,7 @@ func TestCrashVerify(t *testing.T) {
 			}
 			want := r.NodePts[e.ID]
 			gotPts := e.Points
-			if e.ID == crashRoot {
+			if e.ID == theRoot {
 				continue // the root also carries nothing from initialisation; its workload points are compared below
 			}
 			if d := comparePoints("node "+e.ID, gotPts, want); d != "" {
@@ -409,8 +456,8 @@ func TestCrashVerify(t *testing.T) {
 		}
 		// the root node's points
 		for _, e := range edges {
-			if e.ID == crashRoot {
-				if d := comparePoints("node "+crashRoot, e.Points, r.NodePts[crashRoot]); d != "" {
+			if e.ID == theRoot {
+				if d := comparePoints("node "+theRoot, e.Points, r.NodePts[theRoot]); d != "" {
 					return d
 				}
 			}
@@ -438,7 +485,7 @@ func TestCrashVerify(t *testing.T) {
 		return
 	}
 	hc.Close()
-	_, hc2, _, err := inlineStore(dir)
+	_, hc2, _, err := inlineStore(dir, rootParam)
 	if err != nil {
 		fail("reopen-twice", "second reopen failed: %v", err)
 		return
